@@ -27,7 +27,8 @@ EXTS = ["/Zzqext", "/Zzqext/Qqmore", "/ZZqExt"]
 def shards(tier, seed):
     out = []
     for v in env.BUNDLED:
-        prefixes = ["", "xx:"] if (tier == "thorough" or v in ("8.3.0", "score_2.0.0")) else [""]
+        # 'sc:' shares its letters with the first letters of many tag names (Sensory-event, Cough, ...)
+        prefixes = ["", "xx:", "sc:"] if (tier == "thorough" or v in ("8.3.0", "score_2.0.0")) else [""]
         for ns in prefixes:
             for part in range(4):
                 out.append(dict(kind="bundled", version=v, ns=ns, part=part, parts=4,
@@ -113,7 +114,8 @@ def check_node(schema, ns, node, rng, ncases, rec, label, entries, bulk):
                     rec.violation("long(short(t)) / short(long(t)) / idempotence broken", case)
                 if not suffix:
                     got = schema.get_tag_entry(spelled, schema_namespace=ns)
-                    if got is not e:
+                    got_p = schema.get_tag_entry(ns + spelled, schema_namespace=ns)     # the prefix may be written
+                    if got is not e or got_p is not e:
                         rec.violation("schema.get_tag_entry disagrees with HedTag resolution", case)
                 if rng.random() < 0.15:
                     hs = HedString(text, schema)
@@ -132,6 +134,12 @@ def check_bulk(schema, bulk, rec, label):
     for form, idx in (("long_tag", 1), ("short_tag", 2)):
         s = pd.Series([b[0] for b in bulk])
         df = pd.DataFrame({"a": [b[0] for b in bulk], "b": [f"({b[0]}, {b[0]})" for b in bulk]})
+        if form == "short_tag":
+            # a column / frame whose index is not 0..n-1 (what is left after filtering or re-ordering)
+            lab = [3 * i + 7 for i in range(len(bulk))]
+            lab = lab[len(lab) // 2:] + lab[:len(lab) // 2]
+            s.index = lab
+            df.index = lab
         try:
             df_util.convert_to_form(s, schema, form)
             df_util.convert_to_form(df, schema, form)
